@@ -218,6 +218,28 @@ def run(ctx, res):
                     f.loc(f.blocks[extra[0][2]]["term"].get("span")))
         else:
             res.ok("SELECTION-FILTER", "test_items.push is conditional only on %s" % sorted({c[0] for c in conds}))
+    # ---- NO-SHARED-BUDGET: `Env.ticks` is one counter for the whole run and is never reset between tests, so a
+    # tick or stack limit configured for `garden test` would be a budget shared by all selected tests: a test's
+    # verdict would then depend on which tests ran before it. Either no limit is set on this path, or the counter is
+    # reset for every test.
+    from .. import sandbox as SB
+    reach_t = P.reachable([f.path])
+    limit_stores = []
+    for fld in ("tick_limit", "stack_limit"):
+        for pth, ws in SB.field_stores(P, fld).items():
+            if pth in reach_t and not pth.startswith("env::Env::new"):
+                for (bi, si, rv, sp) in ws:
+                    is_none = rv["k"] == "agg" and rv.get("variant") == "None"
+                    if not is_none:
+                        limit_stores.append((pth, fld, sp))
+    tick_resets = [pth for pth, ws in SB.field_stores(P, "ticks").items() if pth in ("eval::eval_tests",)]
+    if limit_stores and not tick_resets:
+        pth, fld, sp = limit_stores[0]
+        res.bad("NO-SHARED-BUDGET", "%s # sets %s" % (pth, fld),
+                "`%s` sets Env.%s on the `garden test` path, but Env.ticks is never reset between tests: the limit is a budget for "
+                "the whole run, so a test passes alone and fails after enough other tests" % (pth, fld), P.funcs[pth].loc(sp))
+    else:
+        res.ok("NO-SHARED-BUDGET", "no run-wide tick/stack limit is configured on the garden test path (limit stores=%d, per-test resets=%d)" % (len(limit_stores), len(tick_resets)))
     # ---- ISOLATION-SHAPE ---------------------------------------------------------------
     for fn_name in ("eval::eval_tests",):
         h = P.require_fn(fn_name)
